@@ -269,7 +269,7 @@ func c06Exec(c fw.Case) *fw.Result {
 		}
 		// the damage meets other circumstances too: a third of the data-block damages sit in a
 		// header-less (resumed) stream, and the input comes through readers of different habits
-		if pos >= 0 && (c.Seed>>9)%3 == 0 {
+		if pos >= 0 && c.Int("noheader") == 1 {
 			f.Header = nil
 		}
 		dmg := map[int]pbfw.Damage{pos: {Kind: cl.name, Arg: c.Int("arg")}}
@@ -539,7 +539,7 @@ func c06Cases(tier string, seed uint64) []fw.Case {
 		if len(args) == 0 {
 			args = []int64{0}
 		}
-		for _, arg := range args {
+		for ai, arg := range args {
 			for _, pos := range positions {
 				if pos == -1 && !cl.fileLevel {
 					continue
@@ -556,15 +556,16 @@ func c06Cases(tier string, seed uint64) []fw.Case {
 					if tier == "thorough" {
 						procsList = []int64{1, 2, 3, 8}
 					}
-					for _, procs := range procsList {
+					for pi, procs := range procsList {
 						zl := int64(b2i(cl.zlib || (ci+int(pos))%2 == 0))
+						noheader := int64(b2i(pos >= 0 && (ci+pi+ai)%2 == 1))
 						reps := 1
 						if tier == "thorough" {
 							reps = 3
 						}
 						for rep := 0; rep < reps; rep++ {
 							cs = append(cs, fw.Case{Kind: "damage", Variant: v, Seed: gen.Sub(seed, "c06dmg", ci*10+rep),
-								P: map[string]int64{"class": int64(ci), "arg": arg, "pos": pos, "procs": procs, "zlib": zl, "askheader": int64(rep % 2)}})
+								P: map[string]int64{"class": int64(ci), "arg": arg, "pos": pos, "procs": procs, "zlib": zl, "askheader": int64(rep % 2), "noheader": noheader}})
 						}
 					}
 				}
@@ -609,7 +610,7 @@ func init() {
 	fw.Register(&fw.Prop{
 		ID:    "C06",
 		Level: "fault_enumeration",
-		Rule: "(a) every byte offset 0..len of small generated files (3-6 blocks) as a cut point, with 1 and 3 decoders, each cut read once from a reader that reports io.EOF by an empty Read and once from one that returns it together with the last bytes; (b) 46 damage classes (size fields, raw_size off by one and far off: 0, negative, around the int32 wrap of size+10%, int32 max, deflate stream, adler, blob encoding, block type, required feature, missing/short/long columns, out-of-range string indexes in 9 places, plain node group, garbage at three levels) x block position {header, first, middle, last} x decoders, a third of the data-block damages in header-less streams, file- and blob-level damage in three eighths of the cases with skip flags set (one kind, two kinds, all three: the error must still be reported), Scan called again after it returned false, the input served whole, in 7 / 64 / 4096-byte reads, with or without the last bytes arriving together with io.EOF; (c) a non-EOF I/O error (five flavours: plain, wrapping io.EOF, io.ErrUnexpectedEOF, wrapping context.Canceled, io.ErrClosedPipe) injected at every Read call index; (d) random damage inside the protobuf payload of one block with intact framing (bit flips, truncation, over-long prefixes, endless varints): no crash, no hang, neighbours exact. Each case runs in a child process so that a crash or hang is an observation of that case. " +
+		Rule: "(a) every byte offset 0..len of small generated files (3-6 blocks) as a cut point, with 1 and 3 decoders, each cut read once from a reader that reports io.EOF by an empty Read and once from one that returns it together with the last bytes; (b) 46 damage classes (size fields, raw_size off by one and far off: 0, negative, around the int32 wrap of size+10%, int32 max, deflate stream, adler, blob encoding, block type, required feature, missing/short/long columns, out-of-range string indexes in 9 places, plain node group, garbage at three levels) x block position {header, first, middle, last} x decoders, half of the data-block damages in header-less streams (so that every class meets a damaged FIRST block of a resumed stream), file- and blob-level damage in three eighths of the cases with skip flags set (one kind, two kinds, all three: the error must still be reported), Scan called again after it returned false, the input served whole, in 7 / 64 / 4096-byte reads, with or without the last bytes arriving together with io.EOF; (c) a non-EOF I/O error (five flavours: plain, wrapping io.EOF, io.ErrUnexpectedEOF, wrapping context.Canceled, io.ErrClosedPipe) injected at every Read call index; (d) random damage inside the protobuf payload of one block with intact framing (bit flips, truncation, over-long prefixes, endless varints): no crash, no hang, neighbours exact. Each case runs in a child process so that a crash or hang is an observation of that case. " +
 			"Signature = cut-position class (in/after size prefix, in/after BlobHeader, in Blob, boundary; header or data block), or (damage class, position), or (chunk size, decoders) for I/O faults.",
 		Assumptions: []string{
 			"a cut at offset 0, after the header block or after any data block is a block boundary (success); anything else must end in a non-nil error",
